@@ -3,7 +3,8 @@
 Real code under symbolic execution: zorg.service.messagebus._handle / _handle_message / _handle_command / _handle_event
 (the queue discipline: commands, then the events of the pages seen), COMMAND_HANDLERS[ReindexDBCommand] /
 [CreateDBCommand] = reindex_database / create_database with their helpers, the write-back that follows (real _add_zids ->
-NewZorgNotesEvent -> add_zids_to_notes_in_file -> _update_zo_file incl. its hash refresh), ZIDManager.get_next /
+NewZorgNotesEvent -> add_zids_to_notes_in_file -> _update_zo_file incl. its hash refresh), the modify-date stamping
+(real _check_for_modified_notes -> ModifiedZorgNotesEvent -> update_note_modify_dates -> _update_zo_file), ZIDManager.get_next /
 _write_to_disk, SQLSession.collect_new_messages / add_message (borrowed unbound).
 
 The CRASH POINT is a symbolic variable: every external effect of the run - a commit of the session, a write of
@@ -14,8 +15,7 @@ behind) and the end state is compared with what the statement demands.
 
 Stubs: transactional recording session (index: page name -> note bodies; changes are durable at commit, dropped at
 rollback / crash; the SQL-level content of a page, remove_file_by_name's partial commits of tag rows are NOT claimed),
-walk_zorg_page = reader of three-line pages, _check_for_modified_notes = no-op (the modify-date write-back is C11's
-subject and is not crashed here), in-memory FS (a write is atomic, or torn in the torn variant), json shim (a torn JSON
+walk_zorg_page = reader of three-line pages, in-memory FS (a write is atomic, or torn in the torn variant), json shim (a torn JSON
 file does not parse), _hash_file = identity, console silent, clock fixed.
 """
 import os
@@ -38,7 +38,6 @@ hx.stub_loggers()
 hx.put(hd, "json", hx.JsonShim)
 hx.put(zm, "json", hx.JsonShim)
 hx.put(hd, "_hash_file", lambda p, chunk_size=8192: "H(" + p.read_text() + ")")
-hx.put(hd, "_check_for_modified_notes", lambda zdir, page, old: None)
 hx.put(hd, "tqdm", lambda it, **k: it)
 hx.put(c, "zprint", lambda *a, **k: None)
 hx.patch_clock(hd)
@@ -64,9 +63,23 @@ def bodies(text):
     return [ln[2:] for ln in text.split("\n") if ln.startswith("- ")]
 
 
-def zid_of(body):
+def mdate_of(body):
     w = body.split(" ")[0]
+    return w if (len(w) == 6 and w.isdigit()) else None
+
+
+def zid_of(body):
+    ws = body.split(" ")
+    w = ws[1] if (mdate_of(body) and len(ws) > 1) else ws[0]
     return w if (len(w) in (9, 10) and w[6:7] == "#") else None
+
+
+def _note(b, p, line_no):
+    import datetime as dt
+    zid, md = zid_of(b), mdate_of(b)
+    day = lambda s: dt.date(2000 + int(s[0:2]), int(s[2:4]), int(s[4:6]))   # noqa: E731
+    created = day(zid) if zid else hx.FixedDate.TODAY
+    return Note(b, file_path=p, line_no=line_no, zid=zid, create_date=created, modify_date=day(md) if md else created)
 
 
 def fake_walk(zdir, path, verbose=False):
@@ -76,8 +89,7 @@ def fake_walk(zdir, path, verbose=False):
     notes = []
     for i, ln in enumerate(text.split("\n")):
         if ln.startswith("- "):
-            b = ln[2:]
-            notes.append(Note(b, file_path=p, line_no=i + 1, zid=zid_of(b), create_date=hx.FixedDate.TODAY))
+            notes.append(_note(ln[2:], p, i + 1))
     page.h0 = H1("", [Block(notes=notes)])
     return page
 
@@ -135,9 +147,12 @@ class RecRepo:
         self.sess.pending[name] = [n.body for n in page.notes]
 
     def remove_file_by_name(self, name):
-        if name in self._view():
+        view = self._view()
+        if name in view:
             self.sess.pending[name] = None
-            return Page(Path(name))
+            old = Page(Path(name))                     # the page as the index holds it (what the real repo hands back)
+            old.h0 = H1("", [Block(notes=[_note(b, Path(name), 3) for b in view[name]])])
+            return old
         return None
 
 
